@@ -14,11 +14,19 @@ ClearR(f) == IF f >= 128 THEN f - 128 ELSE f
 AnswerHdr(req) == [flags |-> ClearR(req.flags), cmd |-> req.cmd, app |-> req.app, hbh |-> req.hbh, e2e |-> req.e2e]
 Limbs(rc) == <<rc \div 65536, rc % 65536>>
 
-Reasons(req, rc, stream, ans) ==
+SetE(f) == IF (f \div 32) % 2 = 1 THEN f ELSE f + 32
+\* the error bit may accompany a failure result code; nothing else may change
+FlagsOK(req, rc, ans) == \/ ans.hdr.flags = ClearR(req.flags)
+                         \/ (rc >= 3000 /\ ans.hdr.flags = SetE(ClearR(req.flags)))
+
+\* `only`: the answer must consist of the Result-Code AVP alone (Message.Answer); the state
+\* machine's CEA / DWA carry further AVPs after it
+ReasonsX(req, rc, stream, ans, only) ==
      (IF ans.hdr.cmd # req.cmd \/ ans.hdr.app # req.app THEN <<"command">> ELSE <<>>)
   \o (IF ans.hdr.hbh # req.hbh \/ ans.hdr.e2e # req.e2e THEN <<"ids">> ELSE <<>>)
-  \o (IF ans.hdr.flags # ClearR(req.flags) THEN <<"flags">> ELSE <<>>)
-  \o (IF rc # 0 /\ ~(ans.navps = 1 /\ ans.first.code = 268 /\ ans.first.flags = 64 /\ ans.first.sem = Limbs(rc)) THEN <<"resultcode">> ELSE <<>>)
-  \o (IF rc = 0 /\ ans.navps # 0 THEN <<"resultcode">> ELSE <<>>)
+  \o (IF ~FlagsOK(req, rc, ans) THEN <<"flags">> ELSE <<>>)
+  \o (IF rc # 0 /\ ~((only => ans.navps = 1) /\ ans.navps >= 1 /\ ans.first.code = 268 /\ ans.first.flags = 64 /\ ans.first.sem = Limbs(rc)) THEN <<"resultcode">> ELSE <<>>)
+  \o (IF rc = 0 /\ only /\ ans.navps # 0 THEN <<"resultcode">> ELSE <<>>)
   \o (IF ans.stream # stream THEN <<"stream">> ELSE <<>>)
+Reasons(req, rc, stream, ans) == ReasonsX(req, rc, stream, ans, TRUE)
 =============================================================================
